@@ -239,11 +239,24 @@ func (r *Run) execute() int {
 	}
 	var cans []*canary
 	for _, u := range r.units {
-		var last *Obligation
+		// two canaries per unit: the hypotheses of its first obligation (entry: preconditions, invariants, lemma
+		// instances) and of its last postcondition-like obligation (the normal-return state). The last obligation
+		// of any kind is not used: a safety obligation on a path the engine did not prune is legitimately unreachable.
+		var last, first *Obligation
 		for _, o := range u.Obls {
 			if o.Batch == nil && len(o.Hyps) > 0 {
-				last = o
+				if first == nil {
+					first = o
+				}
+				switch o.Kind {
+				case "post", "assert", "derived", "typeinv":
+					last = o
+				}
 			}
+		}
+		if last == nil {
+			last = first
+			first = nil
 		}
 		allOK := true
 		for _, o := range u.Obls {
@@ -254,16 +267,21 @@ func (r *Run) execute() int {
 		if last == nil || !allOK {
 			continue
 		}
-		c := &canary{u, &Obligation{Name: u.Name + "/canary", Kind: "canary", Fn: u.Name, Hyps: last.Hyps, Goal: tFalse, Reveal: last.Reveal}}
-		cans = append(cans, c)
-		wg.Add(1)
-		go func() {
-			defer wg.Done()
-			dis.sem <- struct{}{}
-			defer func() { <-dis.sem }()
-			rr := dis.run1(c.o.Name, c.o.Hyps, c.o.Goal, nil, 5, c.o.Reveal)
-			c.o.Status = rr.status
-		}()
+		for _, src := range []*Obligation{first, last} {
+			if src == nil {
+				continue
+			}
+			c := &canary{u, &Obligation{Name: u.Name + "/canary", Kind: "canary", Fn: u.Name, Hyps: src.Hyps, Goal: tFalse, Reveal: src.Reveal}}
+			cans = append(cans, c)
+			wg.Add(1)
+			go func() {
+				defer wg.Done()
+				dis.sem <- struct{}{}
+				defer func() { <-dis.sem }()
+				rr := dis.run1(c.o.Name, c.o.Hyps, c.o.Goal, nil, 5, c.o.Reveal)
+				c.o.Status = rr.status
+			}()
+		}
 	}
 	wg.Wait()
 	for _, c := range cans {
@@ -271,7 +289,15 @@ func (r *Run) execute() int {
 		case "sat":
 			r.canarySat++
 		case "unsat":
-			r.vacuous = append(r.vacuous, c.u.Name)
+			dup := false
+			for _, v := range r.vacuous {
+				if v == c.u.Name {
+					dup = true
+				}
+			}
+			if !dup {
+				r.vacuous = append(r.vacuous, c.u.Name)
+			}
 		default:
 			r.canaryUnknown++
 		}
